@@ -896,7 +896,7 @@ const SK_EDGE: &[&str] = &[
     "SELECT 1 = ", "SELECT 1 = = 2", "SELECT 1 = 2 = 3", "SELECT 1 < 2 >= 3", "SELECT 1 + * 2", "SELECT 1 * - 2", "SELECT 1 * NOT 2", "SELECT 1 + NOT 2", "SELECT 1 || || 2",
     "SELECT 1 AND", "SELECT AND 1", "SELECT 1 OR OR 2", "SELECT 1 AND NOT 2 OR NOT 3", "SELECT TRUE AND FALSE OR NULL", "SELECT 's' || 's' = 's'", "SELECT 1 + 2 * 3 - 4 / 5",
     "FROM t1", "1", ";", "SELECT", "SELECT SELECT 1", "SELECT 1 SELECT 2", "SELECT (SELECT 1) c1 FROM (t1, (t1))", "SELECT 1 ) ) c1", "SELECT END", "SELECT THEN", "SELECT WHEN 1",
-    "SELECT ELSE", "SELECT IN", "SELECT IS", "SELECT NULL", "SELECT , ", "SELECT 1 THEN 2", "SELECT 1 END", "SELECT (1 END)", "SELECT 1 WHEN 2",
+    "SELECT ELSE", "SELECT (SELECT 1;)", "SELECT EXISTS (SELECT 1 ;)", "SELECT 1 FROM (SELECT 1;) t1", "SELECT 1 IN (SELECT 2;)", "SELECT (SELECT 1;;)", "SELECT IN", "SELECT IS", "SELECT NULL", "SELECT , ", "SELECT 1 THEN 2", "SELECT 1 END", "SELECT (1 END)", "SELECT 1 WHEN 2",
 ];
 
 pub fn skeleton_soups(seed: u64, thorough: bool) -> Vec<String> {
